@@ -49,7 +49,10 @@ CONSTANTS
     ExecAlways,    \* sensitivity: "exec" is run although an earlier criterion failed (WRONG)
     FinalShortCut, \* sensitivity: "final" only counts if the criteria before it hold (WRONG)
     MaxLex,        \* lex: longest argument text
-    HashCutsWord   \* sensitivity: an unquoted '#' ends the line also in the middle of a word (WRONG)
+    HashCutsWord,  \* sensitivity: an unquoted '#' ends the line also in the middle of a word (WRONG)
+    SpellSel,      \* spelling programs: the contexts (1..4) in use; {} = not this shape
+    RawFirstWordGate \* sensitivity: inside a non-matching block a line is kept only if its RAW
+                     \* first blank-delimited word is host / match (WRONG: Host=pat is thrown away)
 
 -----------------------------------------------------------------------------
 Strs(A, lo, hi) == UNION {[1..n -> A] : n \in lo..hi}
@@ -484,6 +487,7 @@ St0(user) == [m |-> TRUE, port |-> <<>>, user |-> user, hostname |-> <<>>, tag |
               idf |-> <<>>, env |-> <<>>, ukh |-> <<>>, akf |-> <<>>, fin |-> FALSE,
               tx |-> <<>>,         \* tx: <<name, values>> of the other options that are expanded
               ex |-> <<>>,         \* ex: the "Match exec" commands run so far, in order
+              lvl |-> "main",      \* which file is being read: "main", "inc", "b"
               t |-> <<>>]          \* t: <<name, denotation>> of the typed options, in order of first use
 
 HostNow(st, cx) == IF st.hostname # <<>> THEN st.hostname ELSE cx.host
@@ -587,7 +591,12 @@ RECURSIVE RunFiles(_, _, _, _)
 RunLines(lines, st, cx, prog) ==
     IF lines = <<>> THEN st
     ELSE LET d == DirMenu[Head(lines)]
-             st2 == IF d.k = "host" THEN [st EXCEPT !.m = NameListMatch(d.pl, cx.host)]
+             pos == Len(prog.main) - Len(lines) + 1
+             \* the wrong gate: keyword=value spellings of a block line are not recognised
+             gone == /\ RawFirstWordGate /\ d.k \in {"host", "match"} /\ ~st.m
+                     /\ st.lvl = "main" /\ prog.ms # <<>> /\ prog.ms[pos] \in {2, 4}
+             st2 == IF gone THEN st
+                    ELSE IF d.k = "host" THEN [st EXCEPT !.m = NameListMatch(d.pl, cx.host)]
                     ELSE IF d.k = "match"
                          THEN [st EXCEPT !.m = CondI(d.cr, TRUE, st, cx),
                                          !.fin = @ \/ FinalSeen(d.cr, st, cx),
@@ -598,14 +607,15 @@ RunLines(lines, st, cx, prog) ==
                                            ELSE IF cx.flags.c THEN <<prog.b, prog.a>>
                                            ELSE <<prog.a, prog.b>>
                                   after == RunFiles(files, st, cx, prog)
-                              IN  IF SpliceLeaks THEN after ELSE [after EXCEPT !.m = TRUE]
+                              IN  IF SpliceLeaks THEN [after EXCEPT !.lvl = st.lvl]
+                                  ELSE [after EXCEPT !.m = TRUE, !.lvl = st.lvl]
                     ELSE IF d.k = "topt" /\ d.ty \in {"setx", "appx"} THEN TXAssign(st, d)
                     ELSE IF d.k = "topt" THEN TAssign(st, d)
                     ELSE Assign(st, d, cx)
          IN  RunLines(Tail(lines), st2, cx, prog)
 RunFiles(files, st, cx, prog) ==
     IF files = <<>> THEN st
-    ELSE LET s1 == RunLines(Head(files), [st EXCEPT !.m = TRUE], cx, prog)
+    ELSE LET s1 == RunLines(Head(files), [st EXCEPT !.m = TRUE, !.lvl = "inc"], cx, prog)
              s2 == IF cx.flags.b THEN ExpandAll(s1, cx) ELSE s1
          IN  RunFiles(Tail(files), s2, cx, prog)
 
@@ -617,7 +627,7 @@ Pass(prog, cx, st0) ==
         s1 == IF prog.x = "" THEN s
               ELSE LET mid == IF cx.flags.b \/ (prog.x = "chain" /\ cx.flags.d)
                               THEN ExpandAll(s, cx) ELSE s
-                   IN  RunLines(prog.b, [mid EXCEPT !.m = TRUE], cx, prog)
+                   IN  RunLines(prog.b, [mid EXCEPT !.m = TRUE, !.lvl = "b"], cx, prog)
     IN  IF cx.flags.b THEN ExpandAll(s1, cx) ELSE s1
 
 Cx(host, canonical, final, flags) ==
@@ -663,7 +673,7 @@ Eval(prog, tgt, flags) ==
         ELSE Out(Pass(IF flags.a /\ prog.x = "chain" THEN [prog EXCEPT !.main = <<>>] ELSE prog, cx2,
                       IF flags.a THEN [St0(tgt.user) EXCEPT !.ex = s1.ex]
                       \* ssh fixes the host name before re-reading the files
-                      ELSE [s1 EXCEPT !.m = TRUE,
+                      ELSE [s1 EXCEPT !.m = TRUE, !.lvl = "main",
                                       !.hostname = IF canon THEN cx2.host ELSE HostNow(s1, cx1)]),
                  cx2, flags.b)
 
@@ -719,11 +729,11 @@ CanonPre == <<
 GenMains == {CanonPre[k] \o <<g, GenOpt>> : k \in CanonSel \ {0}, g \in GenLines} \cup
             (IF 0 \in PreSel THEN {<<g, GenOpt>> : g \in GenLines} ELSE {}) \cup
             {<<pre, g, GenOpt>> : pre \in PreSel \ {0}, g \in GenLines}
-GenProgs == [main : GenMains, a : {<<>>}, b : {<<>>}, x : {""}]
+GenProgs == [main : GenMains, a : {<<>>}, b : {<<>>}, x : {""}, ms : {<<>>}]
 FreeProgs == [main : UNION {[1..n -> MainSel] : n \in 1..MaxMain},
           a    : UNION {[1..n -> IncSel]  : n \in 0..MaxInc},
           b    : UNION {[1..n -> IncSel]  : n \in 0..(IF MaxInc > 0 THEN 1 ELSE 0)},
-          x    : {""}]
+          x    : {""}, ms : {<<>>}]
 (* value-class programs: the same option twice (every ordered pair of its value classes, *)
 (* also the same class twice), both occurrences applicable:                              *)
 (*   1 two blocks that both match          2 in the file, then in an Included file       *)
@@ -731,20 +741,36 @@ FreeProgs == [main : UNION {[1..n -> MainSel] : n \in 1..MaxMain},
 (*   5 an options object chained on another 6 chained, and a "Match final" block          *)
 Blk1 == IF Mode = "cli" THEN 3 ELSE 7         \* Host *   /  Match all
 VProg(s, i, j) ==
-    CASE s = 1 -> [main |-> <<Blk1, i, 7, j>>, a |-> <<>>,  b |-> <<>>,  x |-> ""]
-      [] s = 2 -> [main |-> <<i, 43>>,         a |-> <<j>>, b |-> <<>>,  x |-> ""]
-      [] s = 3 -> [main |-> <<43, j>>,         a |-> <<i>>, b |-> <<>>,  x |-> ""]
-      [] s = 4 -> [main |-> <<i>>,             a |-> <<>>,  b |-> <<j>>, x |-> "list"]
-      [] s = 5 -> [main |-> <<i>>,             a |-> <<>>,  b |-> <<j>>, x |-> "chain"]
-      [] s = 6 -> [main |-> <<i>>,             a |-> <<>>,  b |-> <<j, 19, i>>, x |-> "chain"]
+    CASE s = 1 -> [main |-> <<Blk1, i, 7, j>>, a |-> <<>>,  b |-> <<>>,  x |-> "", ms |-> <<>>]
+      [] s = 2 -> [main |-> <<i, 43>>,         a |-> <<j>>, b |-> <<>>,  x |-> "", ms |-> <<>>]
+      [] s = 3 -> [main |-> <<43, j>>,         a |-> <<i>>, b |-> <<>>,  x |-> "", ms |-> <<>>]
+      [] s = 4 -> [main |-> <<i>>,             a |-> <<>>,  b |-> <<j>>, x |-> "list", ms |-> <<>>]
+      [] s = 5 -> [main |-> <<i>>,             a |-> <<>>,  b |-> <<j>>, x |-> "chain", ms |-> <<>>]
+      [] s = 6 -> [main |-> <<i>>,             a |-> <<>>,  b |-> <<j, 19, i>>, x |-> "chain", ms |-> <<>>]
 ValProgs == UNION {{VProg(s, i, j) : s \in ShapeSel, i \in GroupOf(g), j \in GroupOf(g)} : g \in ValSel}
 (* expansion programs: [a User line,] one line of block 8 *)
 ExpLines == IF Mode = "cli" THEN (BlockStart(8) + 1)..(BlockStart(8) + NExpCli)
             ELSE (BlockStart(8) + NExpCli + 5)..(BlockStart(8) + NExpCli + 8)
 ExpMains == (IF 0 \in ExpSel THEN {<<e>> : e \in ExpLines} ELSE {}) \cup
             {<<BlockStart(8) + NExpCli + u, e>> : u \in ExpSel \ {0}, e \in ExpLines}
-ExpProgs == [main : ExpMains, a : {<<>>}, b : {<<>>}, x : {""}]
-Progs == IF ExpSel # {} THEN ExpProgs
+ExpProgs == [main : ExpMains, a : {<<>>}, b : {<<>>}, x : {""}, ms : {<<>>}]
+(* SPELLING programs.  ms gives every line of the main file a spelling:                  *)
+(*   1 K v   2 K=v   3 K = v   4 K= v   5 K =v   6 K<tab>v   7 K   v   8 k v   9 KEY v   *)
+(*   10 K "v"                                                                            *)
+(* A block-opening line L and the option line after it are written in every spelling, in *)
+(* every CONTEXT: 1 top of the file, 2 after a block that matches, 3 after a block that  *)
+(* does not match, 4 after an Include (whose file ends in a block that does not match).  *)
+(* The interpreter reads the abstract program: the spelling must not matter.             *)
+Spellings == 1..10
+SpellL == {1, 2, 7, 8, 23, 24}       \* Host ha, Host hb, Match all, Match host ha, Match !all, Match host !ha,h*
+SProg(cxt, l, sl, so) ==
+    CASE cxt = 1 -> [main |-> <<l, 25>>,          ms |-> <<sl, so>>,       a |-> <<>>, b |-> <<>>, x |-> ""]
+      [] cxt = 2 -> [main |-> <<3, 27, l, 25>>,   ms |-> <<1, so, sl, so>>, a |-> <<>>, b |-> <<>>, x |-> ""]
+      [] cxt = 3 -> [main |-> <<23, 27, l, 25>>,  ms |-> <<sl, so, sl, so>>, a |-> <<>>, b |-> <<>>, x |-> ""]
+      [] cxt = 4 -> [main |-> <<43, l, 25>>,      ms |-> <<1, sl, so>>,    a |-> <<27, 23>>, b |-> <<>>, x |-> ""]
+SpellProgs == {SProg(cxt, l, sl, so) : cxt \in SpellSel, l \in SpellL, sl \in Spellings, so \in Spellings}
+Progs == IF SpellSel # {} THEN SpellProgs
+         ELSE IF ExpSel # {} THEN ExpProgs
          ELSE IF ValSel # {} THEN ValProgs ELSE IF GenSel = {} THEN FreeProgs ELSE GenProgs
 UsesInc(p, f) == \E i \in 1..Len(p.main) : DirMenu[p.main[i]].k = "inc" /\ DirMenu[p.main[i]].f = f
 (* include files only vary when they are read *)
@@ -753,7 +779,7 @@ WellFormed(p) ==
     /\ (p.b # <<>> => (UsesInc(p, "G") \/ p.x # ""))
 RECURSIVE SeqHash(_)
 SeqHash(s) == IF s = <<>> THEN 3 ELSE (SeqHash(Tail(s)) * 53 + Head(s)) % 100003
-Keep(p) == (SeqHash(p.main) + 7 * SeqHash(p.a) + 11 * SeqHash(p.b)) % SampleMod = SampleRem
+Keep(p) == (SeqHash(p.main) + 7 * SeqHash(p.a) + 11 * SeqHash(p.b) + 5 * SeqHash(p.ms)) % SampleMod = SampleRem
 
 (* canonicalisation is only modelled where the code and ssh use the same names *)
 UsesCanon(p) == \E i \in 1..Len(p.main) : DirMenu[p.main[i]].n = "CanonicalDomains"
@@ -978,6 +1004,11 @@ NoRescan ==
     THEN Eval1(kase.p, TgtMenu[kase.t], Rule) = Eval1(kase.p, TgtMenu[kase.t], Single)
     ELSE SrvEval(kase.p, SrvUsers[kase.t], Rule) = SrvEval(kase.p, SrvUsers[kase.t], Single)
 
+(* how a line is spelt does not change what the file means *)
+SpellingInvariant ==
+    Mode = "cli" =>
+        Eval(kase.p, TgtMenu[kase.t], Rule) = Eval([kase.p EXCEPT !.ms = <<>>], TgtMenu[kase.t], Rule)
+
 (* the Host/Match lines of an included file do not reach the lines after the Include *)
 IncludeRestores ==
     Mode = "cli" =>
@@ -1036,7 +1067,7 @@ EmitCli ==
         alts1 == SelectSeq([i \in 1..Len(af1) |-> <<FlagBits(af1[i]), Eval1(kase.p, t, af1[i])>>],
                            LAMBDA x : x[2] # Eval1(kase.p, t, Rule))
     IN  PrintT(<<"cli", kase.p.main, kase.p.a, kase.p.b, kase.t, Eval1(kase.p, t, Rule), r, alts1, alts,
-                 kase.p.x, B2N(ExpSel # {})>>)
+                 kase.p.x, B2N(ExpSel # {}), kase.p.ms>>)
 EmitSrv ==
     LET u == SrvUsers[kase.t]
         r == SrvEval(kase.p, u, Rule)
@@ -1060,6 +1091,12 @@ MenuDump == <<"menu",
               [i \in 1..NDir |-> <<DirMenu[i].k, DirMenu[i].n,
                                    IF DirMenu[i].k = "match"
                                    THEN [j \in 1..Len(DirMenu[i].cr) |-> DirMenu[i].cr[j].c]
-                                   ELSE <<>>>>]>>
+                                   ELSE <<>>>>],
+              \* keyword and canonical value text of every directive (for respelling)
+              [i \in 1..NDir |->
+                 LET d == DirMenu[i] IN
+                 IF d.k \in {"host", "match"} THEN <<Head(DirText(d)), Tail(Tail(DirText(d)))>>
+                 ELSE IF d.k = "opt" THEN <<d.n, Join(d.v, <<" ">>)>>
+                 ELSE <<"", <<>>>>]>>
 ASSUME Emit => PrintT(MenuDump)
 =============================================================================
